@@ -33,7 +33,7 @@ def gen_call(tape, pool_size, term_of, ctx_symbols, richgen, ctx):
              (1, "cnf"), (1, "prenex"), (1, "aig"), (1, "get_type"), (2, "build"), (1, "fresh"),
              (1, "model_value"), (1, "parse_smtlib"), (1, "parse_hr"), (1, "qelim")]
     kinds = kinds + [(2, "substitute_shared"), (2, "parse_long"), (2, "foreign"), (1, "script_serialize"),
-                     (2, "resimplify"), (2, "model_value_shared")]
+                     (2, "resimplify"), (2, "model_value_shared"), (1, "factory")]
     k = tape.weighted(kinds, "call.kind")
     i = tape.draw(pool_size, "call.formula")
     spec = {"call": k, "i": i}
@@ -55,6 +55,19 @@ def gen_call(tape, pool_size, term_of, ctx_symbols, richgen, ctx):
             except ValueError:
                 pass
         spec["update"] = pairs
+    if k == "factory":
+        # which solvers the environment's factory offers for a logic, before / after a generic
+        # SMT-LIB solver is registered (the registrations are the only history that counts)
+        spec["action"] = tape.choice(["query", "query", "add"], "factory.action")
+        spec["logic"] = tape.choice(FACTORY_LOGICS, "factory.logic")
+        if spec["action"] == "add":
+            spec["name"] = "gen%d" % tape.draw(3, "factory.name")
+            spec["logics"] = [tape.choice(FACTORY_LOGICS, "factory.logics") for _ in range(tape.rint(1, 2, "factory.nlogics"))]
+            spec["cores"] = tape.chance(1, 3, "factory.cores")
+    if k == "substitute_shared" and tape.chance(1, 4, "shared.bad"):
+        # the client puts an entry into its dict that substitute() must refuse (a value of another
+        # environment), makes the call, and takes the entry out again
+        spec["bad"] = tape.choice(["foreign_value", "foreign_key"], "shared.bad.kind")
     if k == "foreign":
         # a structural analysis of a formula that belongs to ANOTHER environment, asked through this
         # environment's oracles (what FNode helper methods do when several environments are alive)
@@ -93,6 +106,8 @@ def gen_call(tape, pool_size, term_of, ctx_symbols, richgen, ctx):
         spec["mss"] = bool(tape.draw(2, "subst.mss"))
     elif k == "size":
         spec["measure"] = tape.draw(SIZE_MEASURES, "size.measure")
+        if tape.chance(1, 5, "size.invalid"):
+            spec["measure"] = tape.choice([6, 6, 6, 99, -1], "size.badmeasure")
     elif k == "to_smtlib":
         spec["daggify"] = bool(tape.draw(2, "daggify"))
     elif k == "build":
@@ -142,7 +157,20 @@ def perform(env, spec, f, term, user_symbols):
         # spec["_dict"] is supplied by the caller: the client's long-lived dict (aged
         # environment) or a brand-new dict with the same content (reference environment)
         d = spec["_dict"]
+        if spec.get("bad") and spec.get("_bad_entry") is not None:
+            bk, bv = spec["_bad_entry"]
+            saved = d.get(bk, None)
+            d[bk] = bv
+            try:
+                return f.substitute(d)
+            finally:
+                if saved is None:
+                    del d[bk]
+                else:
+                    d[bk] = saved
         return f.substitute(d)
+    if k == "factory":
+        return factory_call(env, spec)
     if k == "free_vars":
         return f.get_free_variables()
     if k == "atoms":
@@ -281,6 +309,33 @@ def perform(env, spec, f, term, user_symbols):
         cls = ShannonQuantifierEliminator if spec.get("algo") == "shannon" else SelfSubstitutionQuantifierEliminator
         return cls(env, BOOL_LOGIC).eliminate_quantifiers(f)
     raise ValueError("unknown call %r" % k)
+
+
+FACTORY_LOGICS = ["QF_LIA", "QF_LRA", "QF_BV", "QF_UFLIRA", "LRA", "QF_AUFBV"]
+
+
+def factory_register(env, spec):
+    from pysmt.logics import get_logic_by_name
+    env.factory.add_generic_solver(spec["name"], ["/bin/false"], [get_logic_by_name(l) for l in spec["logics"]],
+                                   unsat_core_support=bool(spec.get("cores")))
+
+
+def factory_call(env, spec):
+    from pysmt.logics import get_logic_by_name
+    fa = env.factory
+    if spec["action"] == "add":
+        factory_register(env, spec)
+    lg = get_logic_by_name(spec["logic"])
+
+    def mine(names):
+        # solvers the harness itself registered for its simulated back-ends are not part of the answer
+        return sorted(n for n in names if not n.startswith("ref"))
+    out = ["factory", mine(fa.all_solvers(logic=lg)), bool(fa.has_solvers(logic=lg)),
+           mine(fa.all_unsat_core_solvers(logic=lg)), mine(fa.all_solvers())]
+    for n in mine(fa.all_solvers()):
+        if fa.is_generic_solver(n):
+            out.append([n, [str(l) for l in fa.get_generic_solver_info(n)[1]]])
+    return out
 
 
 def _subterms(t, acc=None):
